@@ -2162,9 +2162,12 @@ func opcodeCheckMultiSig(op *ParsedOpcode, t *thread) error {
 	// Get script starting from the most recent bscript.OpCODESEPARATOR.
 	script := t.subScript()
 
+	// Remove the signatures that do not use the FORKID digest: those cannot sign themselves.
 	for _, sigInfo := range signatures {
+		if raw := sigInfo.signature; len(raw) > 0 && t.signsScriptCodeAsIs(sighash.Flag(raw[len(raw)-1])) {
+			continue
+		}
 		script = script.removeOpcodeByData(sigInfo.signature)
-		script = script.removeOpcode(bscript.OpCODESEPARATOR)
 	}
 
 	success := true
@@ -2243,8 +2246,13 @@ func opcodeCheckMultiSig(op *ParsedOpcode, t *thread) error {
 			continue
 		}
 
-		// Generate the signature hash based on the signature hash type.
-		signatureHash, err := t.signatureHash(script, shf)
+		// Generate the signature hash based on the signature hash type; the legacy digest
+		// does not cover code separators.
+		scriptCode := script
+		if !t.signsScriptCodeAsIs(shf) {
+			scriptCode = script.removeOpcode(bscript.OpCODESEPARATOR)
+		}
+		signatureHash, err := t.signatureHash(scriptCode, shf)
 		if err != nil {
 			t.dstack.PushBool(false)
 			return nil //nolint:nilerr // only need a false push in this case
